@@ -1220,8 +1220,11 @@ def compare_example_model(ck, built, dt, real_doc, case, rep, real_check, has_re
         ck.disagree('decl.ircheck.example', case, real_check, mo)
         return
     ck.agree('decl.ircheck.example')
-    if rep.get('envWF') is False or rep.get('unionsAgree') is False:
-        ck.disagree('decl.ircheck.envwf', case, 'accepted by the compiler', {k: rep.get(k) for k in ('envWF', 'unionsAgree')})
+    if rep.get('envWF') is False or rep.get('envWFX') is False or rep.get('unionsAgree') is False:
+        # hypotheses of the theorems: must hold of the class tables of every accepted spec
+        ck.disagree('decl.ircheck.envwf', case, 'accepted by the compiler', {k: rep.get(k) for k in ('envWF', 'envWFX', 'unionsAgree')})
+    elif rep.get('envWF') is True:
+        ck.agree('decl.ircheck.envwf')
     if real_check != ['ok']:
         return
     if rep.get('doc') is None:
